@@ -45,6 +45,22 @@ class CallMixin:
             return VFunc(name, key=('external', name))
         if name in self.module_names:
             return VFunc(name, key=('module', name))
+        # a module-level name of the repository (this module first): literal constants by value, anything else as one fixed
+        # but unknown object (no assumption is made about it)
+        for r in [rel] + sorted(x for x in self.src.trees if x != rel):
+            for n in self.src.tree(r).body:
+                if isinstance(n, ast.Assign) and any(isinstance(t, ast.Name) and t.id == name for t in n.targets):
+                    try:
+                        val = ast.literal_eval(n.value)
+                    except Exception:
+                        val = None
+                        lit = False
+                    else:
+                        lit = isinstance(val, (int, float, str, bool)) or val is None
+                    v = lift(val) if lit else VOpaque(hint='global:' + name, nonnull=True)
+                    self.globals_v[name] = v
+                    self.used_globals = getattr(self, 'used_globals', set()) | {f"{r}::{name}" + ('' if lit else ' (opaque)')}
+                    return v
         return None
 
     def global_attr(self, d, st):
@@ -243,6 +259,21 @@ class CallMixin:
                 r = h(self, key, args, kwargs, st, node)
                 if r is not None:
                     return r
+            # a function of the repository that no contract names (e.g. a helper extracted by a refactoring): its real body is
+            # executed in place - it is verified as part of its caller.  Recursion is not unrolled.
+            fn2 = fnode if fnode is not None else self.src.find(key)
+            stack = getattr(self, '_auto_inline_stack', [])
+            if fn2 is not None and isinstance(fn2, (ast.FunctionDef, ast.Lambda)) and key not in stack and len(stack) < 4 \
+                    and not any(isinstance(n, (ast.Yield, ast.YieldFrom, ast.Await)) for n in ast.walk(fn2)):
+                env = self.bind_params(fn2, args, kwargs)
+                if env is None:
+                    return [self.exc(st, 'TypeError', node)]
+                self._auto_inline_stack = stack + [key]
+                try:
+                    self.auto_inlined = getattr(self, 'auto_inlined', set()) | {key}
+                    return self.inline_call(key, None, fn2, env, st, node)
+                finally:
+                    self._auto_inline_stack = stack
             raise Refuse(f"call of {key} which has no contract (line {getattr(node, 'lineno', '?')} in {self.cur_key})")
         if fnode is None:
             fnode = self.src.find(key)
